@@ -6,6 +6,18 @@ ids = [json.loads(l)["id"] for l in open(os.path.join(VERIF, "properties.jsonl")
 HOOK_COMMITS = ["424bc8f"]
 
 CLAIMED = {
+ "C01": dict(category="proof", design="DESIGN.md §6 C01",
+   text="Coq theorem C01_completeness over an abstract field and F-module (every prime-order group): for every program (interaction trees, all call kinds, closures depending on challenges), every RNG stream, every pair of generator lists agreeing on the first n' entries with capacities >= n' on either side, if the final assignment satisfies all constraints and gates then the proof emitted by the model of prove_and_return_transcript is accepted by the model of verify — under NZ (inverted challenges non-zero) and non-identity of the mandatory points. Proved from roles_in_sync (transcripts equal through phase switch and IPP), mega_decomp, P_identity, t2 identity, flatten soundness, IPP completeness. Covers n = 0, 1, non-powers of two, n1 = 0 < n2. The model is tied to the code on every run by K1/K3/K4/K6: events, all proof scalars, every proof point re-materialised by MSM of the model's coefficient vector over the real generators, the verifier's scalar vector, both transcripts, verdicts, on 3 curves.",
+   note="Trusted: Coq kernel; hand-written model of prover.rs/verifier.rs/inner_product_proof.rs/transcript.rs (tied each run); field/module laws for arkworks groups; Merlin/ChaCha/rand as an oracle of the operation history; prover RNG as an arbitrary stream.",
+   technique="machine-checked proof in Coq (simulation + algebra over abstract field/module) + differential correspondence model/implementation"),
+ "C02": dict(category="proof", design="DESIGN.md §6 C02",
+   text="Coq theorem C02_verdict_iff: for the proof emitted by the proving procedure on an ARBITRARY secrets state (so also gate-violating ones), verify accepts iff r*x^2*E(y,z) = 0 where E is the error polynomial (gate errors against y^i, constraint values against z^(q+1)); C02_few_bad_challenges (polynomial root bound, proved): a violated constraint is accepted for at most Q values of z, a violated gate for at most n-1 values of y, the coefficients being fixed before the challenge; satisfying witnesses have E = 0. Both phases, every position, constant-only and committed-only constraints. Correspondence as C01 plus the violating stream (hook H2 for gate violations).",
+   note="As C01; additionally B <> 0. The probabilistic last step (challenge uniform and independent) is not formalised; the deterministic counting statement is.",
+   technique="machine-checked proof in Coq (exact acceptance condition + polynomial root counting) + differential correspondence model/implementation"),
+ "C03": dict(category="proof", design="DESIGN.md §6 C03",
+   text="Coq theorem C03_mega_decomp: for ARBITRARY proof objects the single multiscalar check equals R_ipp + r.R_t where R_t is the committed evaluation relation and R_ipp the inner-product relation with generators folded explicitly round by round; C03_verdict_iff_relations lifts it to the model verifier (accept iff that sum is zero, else VerificationError); corollaries: nothing the relations accept is rejected, a false accept forces R_ipp = -r.R_t for the single value r drawn after the proof; identity points are rejected first. The run additionally evaluates the three relations from their specification (explicit folding) on every executed case and compares with the real verdict.",
+   note="As C01. all_nz hypothesis on inner-product challenges.",
+   technique="machine-checked proof in Coq (MSM linearity + extension-ring tactic) + differential correspondence + relation evaluation against real verdicts"),
  "C10": dict(category="proof", design="DESIGN.md §6 C10",
    text="Coq theorems for every k (no bound; induction on the challenge list), every field and every F-module: create (unrolled first round with arbitrary factor vectors + generic rounds) yields exactly k rounds and verifies against P = <a,gf.G>+<b,hf.H>+<a,b>Q when challenges are non-zero and no round point is the identity (C10_complete); the unrolled round equals the generic round on pre-scaled generators (C10_fast_path); the verdict equals explicit round-by-round folding (C10_verify_is_explicit_fold, C10_s_vector); at most one P is accepted (C10_P_unique); wrong length / 32+ rounds / unequal lists / identity round points are rejected (C10_length, C10_degenerate_rejected). Tied to the code by K5 through hook H1 (L, R as coefficient vectors re-materialised with real generators, a, b, (u^2,u^-2,s), transcript, verdicts) for non-unit factors.",
    note="Trusted: Coq kernel; model of inner_product_proof.rs (tied by K5 and, inside R1CS runs, K3/K4); field/module laws; oracle idealisation of Merlin. The s-vector loop is modelled in blocked form (block j = prefix scaled by u_sq[lg_n-1-j]); index-exact form is in the shape model (C08).",
